@@ -7,9 +7,12 @@ with a pool of generated arguments along many template paths (direct, subscript,
 |attr, set/with alias, map(attribute=), loop variable, macro parameter, do
 statement, format-field lookup) on top-level and nested containers, and every
 built-in filter is applied to container inputs with container-valued positional
-and keyword arguments, in sync and async ImmutableSandboxedEnvironments.
+and keyword arguments, in sync and async ImmutableSandboxedEnvironments with
+autoescape off and on (filters take different code paths on escaped data), on
+inputs whose items are ints, floats, None, booleans, nested lists and dicts, and
+also applied to the inner containers of an input through map('<filter>', ...).
 After each render every context value is compared with the deep copy taken
-before it.
+before it; the comparison is type-exact at every level (1 != '1' != True).
 """
 from __future__ import annotations
 
@@ -24,8 +27,14 @@ RULE = ("method cases: (container type, target expression, name from dir(type), 
         "from a fixed pool, template path, sync/async), enumerated completely; filter cases: "
         "(filter from env.filters, container input, positional container argument or keyword "
         "argument named after each parameter of the filter's signature with container/scalar "
-        "values, consumption form, sync/async), enumerated completely (quick: a seed-rotated "
-        "quarter of the non-mutating argument tuples and one consumption form per row); thorough "
+        "values, consumption form [print, list, loop, via-map = the filter applied to every "
+        "element of the input through map('<filter>', args)], sync/async, autoescape off/on), "
+        "enumerated completely (quick: a seed-rotated "
+        "quarter of the non-mutating argument tuples and one direct consumption form per row, "
+        "via-map on inputs whose elements are containers; method cases alternate autoescape by "
+        "row, direct filter cases run sync under both autoescape settings and async under one "
+        "alternating by row, via-map cases one of the four combinations per row); inputs hold non-string items (ints, floats, None, bools, "
+        "nested lists/dicts/sets/deques); thorough "
         "adds seeded random compositions (2-3 method templates + 1 filter template rendered one "
         "after the other against the same data object); a "
         "case is distinct by that tuple and non-trivial when the template compiled and the "
@@ -35,24 +44,27 @@ LEVEL_TEXT = ("held (apart from recorded findings) on the complete enumerated ta
               "method names x argument pool x paths and filter x argument table; not a proof over all templates")
 ASSUMPTIONS = [
     "containers are of the exact builtin types list, dict, set, collections.deque; subclasses are not generated",
-    "equality is element-wise == (with exact type and deque maxlen) between the rendered-with data and a second, identical build of the data; once per shard that build is checked to equal copy.deepcopy of the first (plus attribute dicts of plain holder objects)",
+    "equality is element-wise == with exact type at every level (so 1, '1', 1.0 and True are all different; deque maxlen included) between the rendered-with data and a second, identical build of the data; once per shard that build is checked to equal copy.deepcopy of the first (plus attribute dicts of plain holder objects)",
     "a (method, arguments) pair counts as an attempted modification iff executing it on a deep copy changes the copy",
+    "autoescape is an environment option (autoescape=True/False); per-template autoescape blocks are not generated",
 ]
 NSHARDS = {"quick": 16, "thorough": 16}
-BUDGET_S = {"quick": 25, "thorough": 400}
+BUDGET_S = {"quick": 35, "thorough": 400}
 FLOORS = {
-    "quick": {"evaluations": 8000, "distinct": 8000,
+    "quick": {"evaluations": 11000, "distinct": 11000,
               "counters": {"method_cases": 4000, "mutating_attempts": 1500,
-                           "security_errors": 1200, "filter_cases": 3500,
-                           "async_renders": 5000, "comparisons": 8000,
+                           "security_errors": 1200, "filter_cases": 7000,
+                           "async_renders": 5000, "comparisons": 11000,
                            "method_names": 150, "filters_covered": 40,
-                           "defined_checks": 300}},
+                           "defined_checks": 300, "autoescape_renders": 4500,
+                           "filter_cases_autoescape": 3500, "via_map_cases": 900}},
     "thorough": {"evaluations": 60000, "distinct": 60000,
                  "counters": {"method_cases": 30000, "mutating_attempts": 8000,
                               "security_errors": 6000, "filter_cases": 30000,
                               "async_renders": 30000, "comparisons": 60000,
                               "method_names": 150, "filters_covered": 40,
-                              "defined_checks": 300}},
+                              "defined_checks": 300, "autoescape_renders": 60000,
+                              "filter_cases_autoescape": 40000, "via_map_cases": 20000}},
 }
 
 TYPES = {"list": list, "dict": dict, "set": set, "deque": collections.deque}
@@ -81,6 +93,10 @@ def make_data():
         "adq": collections.deque([9]),
         "pairs": [("k", "v")],
         "lol": [[1], [2, 3]],
+        # non-string items of every kind (a filter that rewrites items in place
+        # with their string forms leaves the rendered output unchanged)
+        "mx": [1, 2.5, None, [1, 2], {"a": 1}, True, (3, [4])],
+        "rows": [[1, 2.5], [None, [3]], collections.deque([4, 5])],
     }
 
 
@@ -158,22 +174,22 @@ NONCALL_PATHS = {"format_field", "format_map_field"}
 _envs = {}
 
 
-def get_env(is_async):
+def get_env(is_async, autoescape=False):
     from jinja2.sandbox import ImmutableSandboxedEnvironment
 
-    env = _envs.get(is_async)
+    env = _envs.get((is_async, autoescape))
     if env is None:
         env = ImmutableSandboxedEnvironment(enable_async=is_async, extensions=["jinja2.ext.do"],
-                                            cache_size=0)
-        _envs[is_async] = env
+                                            cache_size=0, autoescape=autoescape)
+        _envs[(is_async, autoescape)] = env
     return env
 
 
-def render(source, is_async):
+def render(source, is_async, autoescape=False):
     """-> (data, snapshot, outcome, message); outcome in ok/security/syntax/other"""
     from jinja2.exceptions import SecurityError, TemplateSyntaxError
 
-    env = get_env(is_async)
+    env = get_env(is_async, autoescape)
     data = make_data()
     snap = make_data()      # == copy.deepcopy(data): checked once per shard in run()
     try:
@@ -229,8 +245,9 @@ def method_case(ctx, case, count=True):
                                             case["args"], case["path"], case["async"])
     texpr = TARGETS[tname][ti][0]
     atext = ARGPOOL[ai][0]
+    autoescape = bool(case.get("autoescape", False))
     source = PATHS[path].replace("T", texpr).replace("M", mname).replace("A", atext)
-    data, snap, outcome, msg = render(source, is_async)
+    data, snap, outcome, msg = render(source, is_async, autoescape)
     if outcome == "syntax":
         if count:
             ctx.count("syntax_rejected")
@@ -243,15 +260,17 @@ def method_case(ctx, case, count=True):
         ctx.count("outcome:" + outcome)
         if is_async:
             ctx.count("async_renders")
+        if autoescape:
+            ctx.count("autoescape_renders")
         if would:
             ctx.count("mutating_attempts")
             ctx.count("mutating_attempts:" + tname)
-        ctx.dist(["m", tname, ti, mname, ai, path, is_async])
+        ctx.dist(["m", tname, ti, mname, ai, path, is_async, autoescape])
     full = dict(case, source=source)
     ch = changed_vars(data, snap)
     key = f"{tname}.{mname}"
     if ch:
-        ctx.violation(key, f"{source!r} (async={is_async}) modified context value(s) {ch}: "
+        ctx.violation(key, f"{source!r} (async={is_async}, autoescape={autoescape}) modified context value(s) {ch}: "
                            f"before {[snap[k] for k in ch if k in snap]!r} after "
                            f"{[data.get(k) for k in ch]!r}; render outcome {outcome}: {msg[:120]!r}",
                       full)
@@ -261,7 +280,7 @@ def method_case(ctx, case, count=True):
             if count:
                 ctx.count("security_errors")
         else:
-            ctx.violation(key, f"{source!r} (async={is_async}): the call modifies a copy when "
+            ctx.violation(key, f"{source!r} (async={is_async}, autoescape={autoescape}): the call modifies a copy when "
                                f"executed directly, the data is unchanged, but the render "
                                f"ended with {outcome}: {msg[:200]!r} instead of SecurityError",
                           full)
@@ -276,12 +295,15 @@ def defined_case(ctx, case, count=True):
            "attr": "{{ T|attr('M') is defined }}",
            "map": "{{ ([T]|map(attribute='M')|first) is defined }}"}[form]
     source = src.replace("T", texpr).replace("M", mname)
-    data, snap, outcome, msg = render(source, is_async)
+    autoescape = bool(case.get("autoescape", False))
+    data, snap, outcome, msg = render(source, is_async, autoescape)
     if count:
         ctx.ev()
         ctx.count("defined_checks")
         ctx.count("comparisons")
-        ctx.dist(["def", tname, ti, mname, form, is_async])
+        if autoescape:
+            ctx.count("autoescape_renders")
+        ctx.dist(["def", tname, ti, mname, form, is_async, autoescape])
     full = dict(case, source=source)
     if changed_vars(data, snap):
         ctx.violation(f"{tname}.{mname}", f"{source!r} modified data", full)
@@ -293,10 +315,26 @@ def defined_case(ctx, case, count=True):
 
 
 # --------------------------------------------------------------- filters
-INPUTS = ["l", "ll", "d", "s", "q", "lol", "nest.l", "pairs", "d.b", "adict"]
+INPUTS = ["l", "ll", "d", "s", "q", "lol", "mx", "rows", "nest.l", "pairs", "d.b", "adict"]
+QUICK_INPUTS = INPUTS[:7]
+#: inputs whose elements are themselves containers: the via-map form applies the
+#: filter to each element
+NESTED_INPUTS = ["ll", "lol", "mx", "rows", "nest.l", "pairs"]
 ARGVALS = ["alist", "adict", "aset", "adq", "lol", "l", "1", "'a'", "true", "none"]
 FORMS = {"print": "{{ X|F }}", "list": "{{ X|F|list }}",
-         "loop": "{% for i in X|F %}{{ i }}{% endfor %}"}
+         "loop": "{% for i in X|F %}{{ i }}{% endfor %}",
+         # the filter named as the first argument of map, remaining arguments passed on
+         "map": "{{ X|map(F)|list }}", "map_join": "{{ X|map(F)|join(' ') }}"}
+DIRECT_FORMS = ["print", "list", "loop"]
+MAP_FORMS = ["map", "map_join"]
+
+
+def filter_source(name, inp, argtext, form):
+    if form in MAP_FORMS:
+        fexpr = repr(name) + (f", {argtext}" if argtext else "")
+    else:
+        fexpr = name + (f"({argtext})" if argtext else "")
+    return FORMS[form].replace("X", inp).replace("F", fexpr)
 
 
 def filter_params(env, name):
@@ -314,7 +352,7 @@ def filter_table(quick=False):
     """Deterministic list of (filter, input, argtext, argkey)."""
     env = get_env(False)
     out = []
-    inputs = INPUTS[:6] if quick else INPUTS
+    inputs = QUICK_INPUTS if quick else INPUTS
     kwvals = ARGVALS[:5] + ["1"] if quick else ARGVALS
     for name in sorted(env.filters):
         params = filter_params(env, name)
@@ -346,9 +384,9 @@ def _where(inp, argtext, argkey, ch):
 def filter_case(ctx, case, count=True):
     name, inp, argtext, argkey, form, is_async = (case["filter"], case["input"], case["argtext"],
                                                   case["argkey"], case["form"], case["async"])
-    fexpr = name + (f"({argtext})" if argtext else "")
-    source = FORMS[form].replace("X", inp).replace("F", fexpr)
-    data, snap, outcome, msg = render(source, is_async)
+    autoescape = bool(case.get("autoescape", False))
+    source = filter_source(name, inp, argtext, form)
+    data, snap, outcome, msg = render(source, is_async, autoescape)
     if outcome == "syntax":
         if count:
             ctx.count("syntax_rejected")
@@ -360,12 +398,18 @@ def filter_case(ctx, case, count=True):
         ctx.count("filter_outcome:" + outcome)
         if is_async:
             ctx.count("async_renders")
-        ctx.dist(["f", name, inp, argtext, form, is_async])
+        if autoescape:
+            ctx.count("autoescape_renders")
+            ctx.count("filter_cases_autoescape")
+        if form in MAP_FORMS:
+            ctx.count("via_map_cases")
+        ctx.dist(["f", name, inp, argtext, form, is_async, autoescape])
     ch = changed_vars(data, snap)
     if ch:
         where = _where(inp, argtext, argkey, ch)
-        key = f"filter:{name}/{where}/" + ("async" if is_async else "sync")
-        ctx.violation(key, f"{source!r} (async={is_async}) modified context value(s) {ch}: before "
+        key = f"filter:{name}/{where}/" + ("async" if is_async else "sync") + \
+              ("/autoescape" if autoescape else "")
+        ctx.violation(key, f"{source!r} (async={is_async}, autoescape={autoescape}) modified context value(s) {ch}: before "
                            f"{[snap[k] for k in ch if k in snap]!r} after {[data.get(k) for k in ch]!r}; "
                            f"outcome {outcome}: {msg[:100]!r}", dict(case, source=source))
 
@@ -414,7 +458,8 @@ STATEMENTS = [
 
 def statement_case(ctx, case, count=True):
     source, is_async = case["source"], case["async"]
-    data, snap, outcome, msg = render(source, is_async)
+    autoescape = bool(case.get("autoescape", False))
+    data, snap, outcome, msg = render(source, is_async, autoescape)
     if outcome == "syntax":
         if count:
             ctx.count("syntax_rejected")
@@ -425,13 +470,16 @@ def statement_case(ctx, case, count=True):
         ctx.count("comparisons")
         if is_async:
             ctx.count("async_renders")
-        ctx.dist(["s", source, is_async])
+        if autoescape:
+            ctx.count("autoescape_renders")
+        ctx.dist(["s", source, is_async, autoescape])
     ch = changed_vars(data, snap)
     if ch:
         key = case["key"]
         if key.startswith("filter:"):
             key += "/async" if is_async else "/sync"
-        ctx.violation(key, f"{source!r} (async={is_async}) modified {ch}: after "
+            key += "/autoescape" if autoescape else ""
+        ctx.violation(key, f"{source!r} (async={is_async}, autoescape={autoescape}) modified {ch}: after "
                            f"{[data.get(k) for k in ch]!r}; outcome {outcome}: {msg[:100]!r}", case)
 
 
@@ -465,9 +513,14 @@ def run(ctx):
                         for is_async in (False, True):
                             if quick and (ti > 0 or not mut) and is_async != ((idx + ai) % 2 == 0):
                                 continue
-                            method_case(ctx, {"kind": "method", "type": tname, "target": ti,
-                                              "method": mname, "args": ai, "path": path,
-                                              "async": is_async})
+                            # autoescape: alternating by row (seed-rotated); thorough runs
+                            # the mutating attempts on the first target under both
+                            alt = (idx + ai + is_async + ctx.seed) % 2 == 0
+                            aes = (False, True) if (not quick and mut and ti == 0) else (alt,)
+                            for ae in aes:
+                                method_case(ctx, {"kind": "method", "type": tname, "target": ti,
+                                                  "method": mname, "args": ai, "path": path,
+                                                  "async": is_async, "autoescape": ae})
             if is_mutator(tname, mname):
                 for form in ("dot", "subscript", "attr", "map"):
                     for ti in range(len(TARGETS[tname])):
@@ -476,7 +529,8 @@ def run(ctx):
                             continue
                         for is_async in (False, True):
                             defined_case(ctx, {"kind": "defined", "type": tname, "target": ti,
-                                               "method": mname, "form": form, "async": is_async})
+                                               "method": mname, "form": form, "async": is_async,
+                                               "autoescape": (idx + is_async + ctx.seed) % 2 == 0})
     # every shard sees a slice of every name; count the table size once
     if ctx.shard == 0:
         ctx.count("method_names", sum(len(dir(t)) for t in TYPES.values()))
@@ -487,24 +541,41 @@ def run(ctx):
     for i, (key, s) in enumerate(STATEMENTS):
         if ctx.mine(i):
             for is_async in (False, True):
-                statement_case(ctx, {"kind": "statement", "key": key, "source": s,
-                                     "async": is_async})
+                for ae in (False, True):
+                    statement_case(ctx, {"kind": "statement", "key": key, "source": s,
+                                         "async": is_async, "autoescape": ae})
     # ---- complete filter table
     table = filter_table(quick)
     if ctx.shard == 0:
         ctx.count("filters_covered", len({t[0] for t in table}))
         ctx.extra["filter_table_rows"] = len(table)
-    forms = list(FORMS)
     for i, (name, inp, argtext, argkey) in enumerate(table):
         if not ctx.mine(i):
             continue
-        for fi, form in enumerate(forms):
-            if quick and form != ("print", "list")[(i // ctx.nshards + ctx.seed) % 2]:
+        r = i // ctx.nshards + ctx.seed
+        for form in DIRECT_FORMS:
+            if quick and form != ("print", "list")[r % 2]:
                 continue
             for is_async in (False, True):
-                filter_case(ctx, {"kind": "filter", "filter": name, "input": inp,
-                                  "argtext": argtext, "argkey": argkey, "form": form,
-                                  "async": is_async})
+                for ae in (False, True):
+                    # quick: sync under both autoescape settings, async alternating
+                    if quick and is_async and ae != (r % 2 == 0):
+                        continue
+                    filter_case(ctx, {"kind": "filter", "filter": name, "input": inp,
+                                      "argtext": argtext, "argkey": argkey, "form": form,
+                                      "async": is_async, "autoescape": ae})
+        if inp in NESTED_INPUTS:
+            for fi, form in enumerate(MAP_FORMS):
+                if quick and fi != (r // 4) % 2:
+                    continue
+                for is_async in (False, True):
+                    for ae in (False, True):
+                        # quick: one of the four (async, autoescape) combinations per row
+                        if quick and (2 * is_async + ae) != r % 4:
+                            continue
+                        filter_case(ctx, {"kind": "filter", "filter": name, "input": inp,
+                                          "argtext": argtext, "argkey": argkey, "form": form,
+                                          "async": is_async, "autoescape": ae})
         if ctx.out_of_time() and quick and i > len(table) * 0.9:
             ctx.count("timeboxed_stop")
             break
@@ -532,7 +603,8 @@ def run(ctx):
                           "argkey": row[3]})
             rng.shuffle(parts)
             for is_async in (False, True):
-                composed_case(ctx, {"kind": "composed", "parts": parts, "async": is_async})
+                composed_case(ctx, {"kind": "composed", "parts": parts, "async": is_async,
+                                    "autoescape": (i + is_async) % 2 == 0})
 
 
 def composed_case(ctx, case, count=True):
@@ -540,7 +612,8 @@ def composed_case(ctx, case, count=True):
     a SecurityError in one part does not hide the next."""
     from jinja2.exceptions import TemplateSyntaxError
 
-    env = get_env(case["async"])
+    autoescape = bool(case.get("autoescape", False))
+    env = get_env(case["async"], autoescape)
     data = make_data()
     snap = copy.deepcopy(data)
     for part in case["parts"]:
@@ -556,8 +629,9 @@ def composed_case(ctx, case, count=True):
             key = part["key"]
             if key.startswith("filter:"):
                 key += "/" + _where(part["input"], part["argtext"], part["argkey"], ch) + \
-                       ("/async" if case["async"] else "/sync")
-            ctx.violation(key, f"{src!r} (async={case['async']}) modified {ch} -> "
+                       ("/async" if case["async"] else "/sync") + \
+                       ("/autoescape" if autoescape else "")
+            ctx.violation(key, f"{src!r} (async={case['async']}, autoescape={autoescape}) modified {ch} -> "
                                f"{[data.get(k) for k in ch]!r}", dict(case, source=src))
             break
     if count:
@@ -566,7 +640,9 @@ def composed_case(ctx, case, count=True):
         ctx.count("comparisons")
         if case["async"]:
             ctx.count("async_renders")
-        ctx.dist(["c", [p["src"] for p in case["parts"]], case["async"]])
+        if autoescape:
+            ctx.count("autoescape_renders")
+        ctx.dist(["c", [p["src"] for p in case["parts"]], case["async"], autoescape])
 
 
 def replay(ctx, case):
